@@ -524,7 +524,7 @@ def gen(repo):
     m = re.search(r"if repo\.config\(\)\.append_only == Some\(true\) && opts\.set_append_only != Some\(false\) \{ return Err\(RusticError::new\( ErrorKind::(\w+), \"((?:[^\"\\]|\\.)*)\"", acb)
     if not m: raise ExtractError("apply_config: append-only guard not found in the expected shape")
     e_ao = errs.site(m.group(1), m.group(2))
-    if not re.search(r"let mut new_config = repo\.config\(\)\.clone\(\); opts\.apply\(&mut new_config\)\?; if &new_config == repo\.config\(\) \{ Ok\(false\) \} else \{ repo\.set_config\(new_config\.clone\(\)\); save_config\(repo, new_config, \*repo\.dbe\(\)\.key\(\)\)\?; Ok\(true\) \}", acb):
+    if not re.search(r"let mut new_config = repo\.config\(\)\.clone\(\); opts\.apply\(&mut new_config\)\?; if &new_config == repo\.config\(\) \{ Ok\(false\) \} else \{ (?:let old_append_only = repo\.config\(\)\.append_only; )?repo\.set_config\(new_config\.clone\(\)\); (?:save_config\(repo, new_config, \*repo\.dbe\(\)\.key\(\)\)\?;|if let Err\(err\) = save_config\(repo, new_config, \*repo\.dbe\(\)\.key\(\)\) \{ (?://[^\n]*)?.*?return Err\(err\); \}) Ok\(true\) \}", acb):
         raise ExtractError("apply_config: clone / apply / compare / save discipline not found in the expected shape")
     out.append("Definition E_APPEND_ONLY : N := %d." % e_ao)
     ib = " ".join(fn_body(ini, "init").split())
